@@ -22,8 +22,8 @@ OP_DOC = {
     "A": "generate C code for an unrelated form (float64)",
     "B": "generate C code for another form with float32 and sum factorisation on tensor-product elements",
     "E": "generate C code for an unrelated expression",
-    "N": "generate code with the numba backend",
-    "J": "run a complete JIT request (cffi build) for an unrelated form",
+    "N": "generate code with the numba backend (float64 and complex64)",
+    "J": "run complete JIT requests (cffi builds) for an unrelated form and an unrelated expression, with the entry points' default arguments",
     "P": "change numpy print options",
     "I": "generate code for a form on a macro (P1-iso-P2) element of the same cell/degree as a target",
     "T": "generate code for three of the targets themselves under other options (loose table tolerances 1e-3, float32): whatever a compilation caches under a key that "
@@ -33,7 +33,7 @@ OP_DOC = {
     "S": "generate code for a simplex form with the process-wide options dict that has sum_factorization=True (as ffcx.main does for several files)",
 }
 TARGETS = ["mass-P1-tri", "nonaffine-quad", "mixed-TH", "interior-facet", "expression", "vector-const-tet", "two-rules-coeff", "prism-ds", "iso-mass-tri", "sumfact-hex",
-           "mass-Q2-hex", "two-mesh-expression"]
+           "mass-Q2-hex", "two-mesh-expression", "two-rules-coeff@numba"]
 _SHARED = {}
 
 
@@ -82,10 +82,12 @@ def do_op(op, k, scratch):
         ffcx.compiler.compile_ufl_objects([(ufl.grad(f) * c, pts)], options=ffcx.options.get_options({}), namespace="hE")
     elif op == "N":
         ffcx.compiler.compile_ufl_objects([f * v * ufl.dx], options=ffcx.options.get_options({"language": "numba"}), namespace="hN")
+        ffcx.compiler.compile_ufl_objects([ufl.sin(f) * ufl.inner(u, v) * ufl.dx], options=ffcx.options.get_options({"language": "numba", "scalar_type": "complex64"}), namespace="hN2")
     elif op == "J":
         import ffcx.codegeneration.jit as jit
 
         jit.compile_forms([c * u * v * ufl.dx], cache_dir=os.path.join(scratch, f"jit{k}"))
+        jit.compile_expressions([(c * f, np.array([[0.25] * m.topological_dimension]))], cache_dir=os.path.join(scratch, f"jitx{k}"))
     elif op == "P":
         np.set_printoptions(precision=3, threshold=5, linewidth=40)
     elif op == "I":
@@ -211,7 +213,11 @@ def real_names(objs, options, args=(), debug=False):
     jit.get_cached_module = fake
     try:
         fn = jit.compile_expressions if isinstance(objs[0], tuple) else jit.compile_forms
-        fn(list(objs), options=dict(options or {}), cache_dir="/nonexistent-ffcx-verif", cffi_extra_compile_args=list(args), cffi_debug=debug)
+        kw = dict(options=dict(options or {}), cache_dir="/nonexistent-ffcx-verif")
+        if args or debug:
+            kw.update(cffi_extra_compile_args=list(args), cffi_debug=debug)
+        # without explicit flags the entry point's own defaults are used - exactly what a caller who passes nothing gets
+        fn(list(objs), **kw)
     except Stop:
         pass
     finally:
@@ -230,14 +236,15 @@ def child_main(job):
     out = {}
     order = job["targets"]
     for name in order:
-        obj = build_target(name)
-        opts = shared_options() if name == "sumfact-hex" else ffcx.options.get_options(job.get("options") or {})
+        obj = build_target(name.split("@")[0])
+        extra = {"language": "numba"} if name.endswith("@numba") else {}
+        opts = shared_options() if name == "sumfact-hex" else ffcx.options.get_options(dict(job.get("options") or {}, **extra))
         code, _ = ffcx.compiler.compile_ufl_objects([obj], options=opts, namespace="tgt")
         text = "\n".join(code)
         rec = {"sha": hashlib.sha1(text.encode()).hexdigest(), "len": len(text)}
         if job.get("keep_text"):
             rec["text"] = text
-        if job.get("names"):
+        if job.get("names") and "@" not in name:
             o_ = {"sum_factorization": True} if name == "sumfact-hex" else (job.get("options") or {})
             rec.update(real_names([obj], o_))
             # the same request with several extra compiler flags (their rendering in the signature must not depend on the process)
